@@ -198,26 +198,32 @@ func crashPoint(dat, idx []byte, p, q int, ids []uint64, cookies map[uint64]uint
 	if q > len(idx) {
 		q = len(idx)
 	}
-	load := func() (st string) {
-		dir := newDir()
-		defer os.RemoveAll(dir)
-		os.WriteFile(filepath.Join(dir, "1.dat"), dat[:p], 0644)
-		os.WriteFile(filepath.Join(dir, "1.idx"), idx[:q], 0644)
-		defer func() {
-			if r := recover(); r != nil {
-				if os.Getenv("C03_SHOWPANIC") != "" {
-					fmt.Fprintf(os.Stderr, "PANIC %v\n%s\n", r, debug.Stack())
+	// A direct storage.NewVolume under recover only where the loader is known to be able to panic (index size not a
+	// multiple of the entry size); everywhere else the load happens once, inside the Store (a panic there kills the
+	// harness, which the check reports as a broken run).
+	load := "ok"
+	if q%int(types.NeedleMapEntrySize) != 0 {
+		load = func() (st string) {
+			dir := newDir()
+			defer os.RemoveAll(dir)
+			os.WriteFile(filepath.Join(dir, "1.dat"), dat[:p], 0644)
+			os.WriteFile(filepath.Join(dir, "1.idx"), idx[:q], 0644)
+			defer func() {
+				if r := recover(); r != nil {
+					if os.Getenv("C03_SHOWPANIC") != "" {
+						fmt.Fprintf(os.Stderr, "PANIC %v\n%s\n", r, debug.Stack())
+					}
+					st = "panic"
 				}
-				st = "panic"
+			}()
+			v, err := storage.NewVolume(dir, dir, "", 1, storage.NeedleMapInMemory, nil, nil, 0, 0)
+			if err != nil {
+				return "failed"
 			}
+			v.Close()
+			return "ok"
 		}()
-		v, err := storage.NewVolume(dir, dir, "", 1, storage.NeedleMapInMemory, nil, nil, 0, 0)
-		if err != nil {
-			return "failed"
-		}
-		v.Close()
-		return "ok"
-	}()
+	}
 	out := []string{load}
 	if load == "panic" {
 		// the same load inside a Store would take the whole process down
@@ -233,6 +239,9 @@ func crashPoint(dat, idx []byte, p, q int, ids []uint64, cookies map[uint64]uint
 	os.WriteFile(datPath, dat[:p], 0644)
 	os.WriteFile(idxPath, idx[:q], 0644)
 	s := newStore(dir)
+	if s.GetVolume(1) == nil {
+		out[0] = "failed"
+	}
 	fsz := func(pth string) string {
 		st, err := os.Stat(pth)
 		if err != nil {
